@@ -1,5 +1,6 @@
 """Worker process for C20.  argv: db_path spec_json.  spec: pages (list of texts), delay (s), gate {line k of create_db/
-init_wikidata_cache/add_empty... : wait until file exists}, out (result file)."""
+init_wikidata_cache/add_empty... : wait until file exists} or gate {page k: wait before expanding the k-th text},
+iterate (keep a live get_all_pages() cursor while expanding, as in "for page in ctx.get_all_pages(): ..."), out (result file)."""
 import json
 import os
 import sys
@@ -23,7 +24,7 @@ def tracer(frame, event, arg):
     def local(frame, event, arg):
         if event == "line":
             count[0] += 1
-            if gate and count[0] == gate["line"]:
+            if gate and count[0] == gate.get("line"):
                 open(gate["reached"], "w").write(str(frame.f_lineno))
                 t0 = time.time()
                 while not os.path.exists(gate["release"]) and time.time() - t0 < 30:
@@ -42,9 +43,19 @@ try:
     if gate or spec.get("count_lines"):
         sys.settrace(tracer)
     ctx = Wtp(db_path=db_path, quiet=True, quiet_output=True)
-    for t in spec["pages"]:
+    cursor_pages = ctx.get_all_pages([0]) if spec.get("iterate") else None
+    for k, t in enumerate(spec["pages"]):
+        if cursor_pages is not None:
+            next(cursor_pages, None)          # the loop's read cursor stays open while the page is processed
+        if gate and gate.get("page") == k:
+            open(gate["reached"], "w").write("page %d" % k)
+            t0 = time.time()
+            while not os.path.exists(gate["release"]) and time.time() - t0 < 30:
+                time.sleep(0.005)
         ctx.start_page("W")
         res["outs"].append(ctx.expand(t))
+    if cursor_pages is not None:
+        cursor_pages.close()
     sys.settrace(None)
     ctx.db_conn.close()
 except BaseException as e:  # noqa
